@@ -113,6 +113,7 @@ func checkC11(c *Ctx) {
 	checkC11GlobalWrite(c, p)
 	checkC11OutputDefined(c, p)
 	checkC11ShareField(c, p)
+	checkC11ArrayView(c, p)
 }
 
 // sharedSource: v is (derived from) a package-level variable or crypto/elliptic's shared CurveParams.
@@ -449,7 +450,7 @@ func checkC11Overwrite(c *Ctx, p *Program) {
 	}
 }
 
-var c11DecoderName = regexp.MustCompile(`^(Unmarshal|Unpack|Import|SetBytes|FromBytes)`)
+var c11DecoderName = regexp.MustCompile(`^(Unmarshal|Unpack|Import|SetBytes|FromBytes|FromMap|FromString)`)
 
 // checkC11Fresh: a decoder writes through a pointer stored in a field of its receiver only after it
 // has assigned that field itself (on every path): otherwise the write lands in an object that may be
@@ -467,6 +468,22 @@ func checkC11Fresh(c *Ctx, p *Program) {
 		lc := newLenCtx(p, f)
 		for _, b := range f.Blocks {
 			for _, in := range b.Instrs {
+				// an update of a map kept in a field of the receiver: the loader merges into whatever the
+				// object held before unless it has put a fresh map there first
+				if mu, ok := in.(*ssa.MapUpdate); ok {
+					if ld, ok := mu.Map.(*ssa.UnOp); ok && ld.Op == token.MUL {
+						if fa, ok := ld.X.(*ssa.FieldAddr); ok && paramRoot(f, fa.X) == 0 {
+							n++
+							construct := fmt.Sprintf("%s: entries are added to the map in field %s", fname(f), fieldName(fa))
+							if lc.forwarded(ld) != nil {
+								c.ok("C11.fresh", construct, "the field is assigned a fresh map by this loader on every path before the update", p.pos(in.Pos()))
+							} else {
+								c.bad("C11.fresh", construct, "the map was not (unconditionally) assigned by this loader: the entries of an earlier load stay in it", p.pos(in.Pos()))
+							}
+						}
+					}
+					continue
+				}
 				ci, ok := in.(ssa.CallInstruction)
 				if !ok {
 					continue
@@ -1321,4 +1338,53 @@ func exportedName(f *ssa.Function) bool {
 		return g.Object().Exported()
 	}
 	return false
+}
+
+// checkC11ArrayView: an array pointer converted from a slice aliases the slice. Storing it in a field is
+// safe only when the slice is the object's own storage; otherwise the object keeps a window into somebody
+// else's buffer (the caller's randomness): wiping or reusing that buffer afterwards changes the object.
+func checkC11ArrayView(c *Ctx, p *Program) {
+	var fs []*ssa.Function
+	for f := range p.AllFuncs {
+		if f.Blocks != nil && isCirclFunc(f) && f.Synthetic == "" && f.Parent() == nil {
+			fs = append(fs, f) // generic bodies, not their instantiations
+		}
+	}
+	sort.Slice(fs, func(i, j int) bool { return fs[i].String() < fs[j].String() })
+	n, nbad := 0, 0
+	for _, f := range fs {
+		for _, b := range f.Blocks {
+			for _, in := range b.Instrs {
+				st, ok := in.(*ssa.Store)
+				if !ok {
+					continue
+				}
+				v := st.Val
+				if ct, ok := v.(*ssa.ChangeType); ok {
+					v = ct.X
+				}
+				s2, ok := v.(*ssa.SliceToArrayPointer)
+				if !ok {
+					continue
+				}
+				if _, ok := st.Addr.(*ssa.FieldAddr); !ok {
+					continue
+				}
+				n++
+				dst, _ := memRoot(st.Addr)
+				src, _ := memRoot(s2.X)
+				construct := fmt.Sprintf("%s: the array pointer stored in %s views storage of the same object", fname(f), descAddr(st.Addr))
+				if dst != nil && dst == src {
+					c.ok("C11.retain", construct, "the slice is part of the object that keeps the pointer", p.pos(st.Pos()))
+					continue
+				}
+				nbad++
+				c.bad("C11.retain", construct, "it points into "+descVal(s2.X)+": the object keeps a window into a buffer it does not own (no copy is made)", p.pos(st.Pos()))
+			}
+		}
+	}
+	c.count("array_view_stores", n)
+	if n == 0 {
+		c.ok("C11.retain", "no array pointer converted from a slice is kept in a field", "0 sites", "")
+	}
 }
